@@ -20,6 +20,13 @@ CFG = """CONSTANTS
  DestIds = {dests}
  NameOf <- MCNameOf
  InvalTable <- MCInvalTable
+ UseImplTable = {useimpl}
+ InvAddNode = {inv_add_node}
+ InvAddNodes = {inv_add_nodes}
+ InvAddLink = {inv_add_link}
+ InvAddLinks = {inv_add_links}
+ InvAddOrigin = {inv_add_origin}
+ InvAddDestination = {inv_add_destination}
  InvalImplicitNodes = {inval}
  DestNameWrite = {destwrite}
  PathEndChecked = {pathend}
@@ -39,6 +46,8 @@ CHECK_DEADLOCK FALSE
 """
 # the repaired library: these are the behaviours the specification prescribes
 INTENDED = dict(inval="TRUE", destwrite="FALSE", pathend="TRUE")
+NO_IMPL_TABLE = dict(useimpl="FALSE", inv_add_node="{}", inv_add_nodes="{}", inv_add_link="{}", inv_add_links="{}", inv_add_origin="{}",
+                     inv_add_destination="{}")
 
 
 def tla_set(xs):
@@ -68,12 +77,12 @@ def transitions(profile: str, universe: str, depth: int, maxpath: int = 3, model
     cfg = d / f"MC_Build-{key}.cfg"
     cfg.write_text(CFG.format(nodes=tla_set(u["nodes"]), links=tla_set(u["links"]), origs=tla_set(u["origs"]),
                               ramps=tla_set(u["ramps"]), dests=tla_set(u["dests"]), depth=depth, profile=profile,
-                              maxpath=maxpath, **model))
-    env = {"SHAPES_FILE": "", "INVAL_FILE": ""}
+                              maxpath=maxpath, **model, **NO_IMPL_TABLE))
+    env = {"SHAPES_FILE": ""}
     if profile == "near":
         import dyncases
         sp, _ = dyncases.shapes(*{3: (3, 3), 4: (4, 4), 5: (4, 5)}[maxpath])
-        env = {"SHAPES_FILE": str(sp), "INVAL_FILE": ""}
+        env = {"SHAPES_FILE": str(sp)}
     res = run_tlc("MC_Build.tla", cfg=str(cfg), env=env, workers=1, heap="8g", timeout=3 * 3600, tag=key)
     if res["rc"] not in (0,):
         raise MachineryError("MC_Build: the specification itself violates a property or failed:\n" + tlc_error_excerpt(res["out"], 40))
@@ -137,6 +146,12 @@ def run(pid: str, tier: str) -> dict:
                 drift.append(f"{item[0]} after {json.dumps(t['h'])}")
     b = trace_validation(pid, tier)
     viol += b["violations"]
+    ind = None
+    if pid == "C08" and tier == "thorough":
+        ind, iv = inductive(1)
+        viol += iv
+        states += ind["states"]
+        ntrans += ind["transitions"]
     cov = {"states": max(1, states + b["states"]), "transitions": max(1, ntrans),
            "traces_validated_against_impl": nrep + b["traces"], "samples": samples[:6] + b["samples"][:2], "exhaustive": True,
            "explanation": "every history of public construction/read calls up to the depth bound over the small universe explored by TLC "
@@ -145,12 +160,79 @@ def run(pid: str, tier: str) -> dict:
                           f"plus {b['traces']} recorded random histories validated by TLC (Trace_Build).",
            "runs": [dict(profile=p_, universe=u_, depth=d_, maxpath=m_) for p_, u_, d_, m_ in PLANS[pid][tier]],
            "transitions_replayed": nrep, "distinct_graphs_reached": len(graphs), "recorded_histories": b["traces"],
-           "recorded_calls": b["calls"]}
+           "recorded_calls": b["calls"], "inductive_step": ind}
     return {"violations": viol, "coverage": cov, "level": "model_checking", "drift": sorted(set(drift))[:10],
             "assumptions": ["TLC; the projection harness/buildrun.py; networkx as ground truth for recomputation",
                             "exhaustive only within the universe and depth stated; random histories beyond"],
             "headline": f"{nrep} transitions replayed ({len(graphs)} distinct graphs), {b['traces']} recorded histories validated, "
                         f"{len(viol)} findings"}
+
+
+def implementation_inval_table():
+    """the invalidation lists as the implementation declares them (read from the decorator closures); None if the
+    implementation no longer uses that mechanism"""
+    import sys
+    sys.path.insert(0, str(common.REPO / "src"))
+    try:
+        from sym_metanet import Network
+        out = {}
+        for name in ("add_node", "add_nodes", "add_link", "add_links", "add_origin", "add_destination"):
+            names, found = set(), False
+            for c in getattr(getattr(Network, name), "__closure__", None) or ():
+                v = c.cell_contents
+                if callable(v) and getattr(v, "__name__", "") == "invalidate_cached_properties":
+                    found = True
+                    for c2 in v.__closure__ or ():
+                        w = c2.cell_contents
+                        if isinstance(w, list):
+                            names |= {p.attrname for p in w if hasattr(p, "attrname")}
+                        elif hasattr(w, "attrname"):
+                            names.add(w.attrname)
+            if not found:
+                return None
+            out[name] = sorted(names)
+        return out
+    except Exception:  # noqa: BLE001
+        return None
+
+
+def inductive(maxedges: int):
+    """C08, unbounded in the history length for the 2-node universe: TLC checks the inductive step of CacheCoherent from
+    ALL coherent states, with the invalidation table read from the implementation.  A failing step is rebuilt in the
+    real library and only counts if the real lookups go stale too."""
+    import buildrun
+    table = implementation_inval_table()
+    d = WORK / "cfg"
+    d.mkdir(parents=True, exist_ok=True)
+    tab = dict(NO_IMPL_TABLE)
+    if table is not None:
+        tab = {"useimpl": "TRUE", **{f"inv_{k}": tla_set(v) for k, v in table.items()}}
+    u = UNIVERSES["tiny"]
+    cfg = d / f"MC_Build-ind-{maxedges}.cfg"
+    cfg.write_text(CFG.format(nodes=tla_set(u["nodes"]), links=tla_set(u["links"]), origs=tla_set(u["origs"]), ramps=tla_set(u["ramps"]),
+                              dests=tla_set(["d1", "d2"]), depth=1, profile="ind", maxpath=maxedges, **INTENDED, **tab).replace("EmitOn = TRUE", "EmitOn = FALSE"))
+    res = run_tlc("MC_Build.tla", cfg=str(cfg), env={"SHAPES_FILE": ""}, workers=NCPU, heap="24g", timeout=4 * 3600,
+                  tag=f"ind{maxedges}", extra=[])
+    info = {"states": res["states"], "transitions": res["generated"], "table_from_implementation": table is not None, "max_edges": maxedges}
+    if res["rc"] == 0:
+        return info, []
+    found = printed(res["out"], "INDFAIL")
+    if not found:
+        raise MachineryError("MC_Build (inductive step) failed:\n" + tlc_error_excerpt(res["out"], 40))
+    w = found[0]
+    U = buildrun.Universe()
+    hist = [["add_node", n] for n in w["nodes"]] + [["add_link", a, l, b] for a, l, b in w["edges"]] \
+        + [["add_origin", o, n] for o, n in w["orig"]] + [["add_destination", dd, n] for dd, n in w["dest"]] \
+        + [["read", k] for k in w["cached"]] + [w["call"]]
+    for c in hist:
+        U.call(c)
+    allr, rec = U.read_all(), U.recompute()
+    stale = [k for k in buildrun.LOOKUPS if not buildrun.same_dict(allr[k], rec[k])]
+    if not stale:
+        raise MachineryError(f"the model (with the implementation's invalidation table) loses coherence after {hist} but the library does not: model drift")
+    return info, [{"signature": f"C08|inductive step|{json.dumps(w['call'])}",
+                   "summary": f"lookups {stale} stale after history {json.dumps(hist)} (found by the inductive step of CacheCoherent with the implementation's invalidation table)",
+                   "payload": {"kind": "build", "transition": {"h": hist}, "finding": stale}}]
 
 
 def trace_validation(pid, tier):
